@@ -47,9 +47,52 @@ Definition spec_value (h : heap) (orig : option nat) (kw : list (name * value)) 
       end
     end
   end.
+(* "a user-defined __post_init__ still runs (before the check)": what the user-written hooks do to the object, by
+   Python's rules alone (the first class along the MRO that defines __post_init__ provides it; super().__post_init__()
+   continues with the rest of the MRO) - the assignments object.__setattr__(self, n, v) they perform, in order *)
+Fixpoint spec_hook_sets (C : chain) : list (name * value) :=
+  match C with
+  | [] => []
+  | L :: rest =>
+    match l_pi L with
+    | None => spec_hook_sets rest
+    | Some b => flat_map (fun s => match s with PSet n v => [(n, v)] | PSuper => spec_hook_sets rest end) (pb_body b)
+    end
+  end.
+Fixpoint last_set (sets : list (name * value)) (n : name) : option value :=
+  match sets with
+  | [] => None
+  | (k, v) :: rest => match last_set rest n with Some w => Some w | None => if Nat.eqb k n then Some v else None end
+  end.
+(* ... and the value of field f when the check runs: what the hooks assigned last, else what __init__ stored *)
+Definition spec_final_value (C : chain) (h : heap) (orig : option nat) (kw : list (name * value)) (f : field)
+  : option (heap * value) :=
+  match last_set (spec_hook_sets C) (f_name f) with
+  | Some v => Some (h, v)
+  | None => spec_value h orig kw f
+  end.
+(* the names a user-written __post_init__ anywhere in the hierarchy assigns *)
+Definition body_names (b : pib) : list name :=
+  flat_map (fun s => match s with PSet n _ => [n] | PSuper => [] end) (pb_body b).
+Definition hook_set_names (C : chain) : list name :=
+  flat_map (fun L => match l_pi L with Some b => body_names b | None => [] end) C.
+
 (* the request is one the property speaks about: every keyword names a field that takes part in __init__ *)
 Definition request_ok (fs : list field) (kw : list (name * value)) : bool :=
   forallb (fun nv => existsb (fun f => Nat.eqb (f_name f) (fst nv) && f_init f) fs) kw.
+
+(* ... every field of __init__ without a default is given (constructor) ... *)
+Definition required_given (fs : list field) (kw : list (name * value)) : bool :=
+  forallb (fun f => negb (f_init f) || negb (is_dnone (f_default f)) || mem (f_name f) (map fst kw)) fs.
+(* ... the receiver of copy_with / deep_copy_with holds a value for every field of __init__ *)
+Definition receiver_ok (fs : list field) (h : heap) (r : nat) : bool :=
+  forallb (fun f => negb (f_init f) || is_some (getattr h r (f_name f))) fs.
+(* a well-formed request on one of the three construction paths *)
+Definition path_request_ok (fs : list field) (p : path) (h : heap) : bool :=
+  match p with
+  | ByCtor kw => request_ok fs kw && required_given fs kw
+  | ByCopy r0 kw | ByDeep r0 kw => request_ok fs kw && receiver_ok fs h r0
+  end.
 
 Definition is_check (e : event) : bool := match e with ECheck _ _ => true | EPi _ => false end.
 
